@@ -19,8 +19,12 @@ THEOREMS = ['C04_B_expand_exact', 'C04_B_tree_tidy', 'C04_collapse_is_expand', '
             'C04_A_sound_sentence', 'C04_A_complete_partial', 'C04_A_alg_erasure', 'C04_A_alg_families_sound',
             'C04_A_alg_families_complete', 'C04_A_exact', 'C04_A_complete', 'C04_A_exact_gen', 'C04_A_example',
             'C04_A_dynamic_erasure', 'C04_A_dynamic_sound', 'C04_A_dynamic_sound_checked', 'C04_A_dynamic_families_sound',
-            'C04_A_dynamic_model_sound', 'C04_A_dynamic_complete_partial', 'C04_A_dynamic_scan_complete', 'C04_A_dynamic_example', 'C04_example']
-GEN_DEPS = []
+            'C04_A_dynamic_model_sound', 'C04_A_dynamic_complete_partial', 'C04_A_dynamic_scan_complete', 'C04_A_dynamic_example',
+            'C04_A_packed_dedup_safe', 'C04_A_dynamic_exact', 'C04_A_dynamic_complete', 'C04_A_dynamic_exact_closed',
+            'C04_A_dynamic_exact_fwd_refuted', 'C04_A_dynamic_exact_example',
+            'C04_B_cyclic_sound', 'C04_B_cyclic_total', 'C04_B_cyclic_cycle_free_exact_refuted',
+            'C04_walk_conditions_are_source', 'C04_tree_conditions_are_source', 'C04_example']
+GEN_DEPS = ['ExplicitWalk']
 RULE = ('random ambiguous grammars (<=4 non-terminals, <=3 alternatives of length <=3, ?rules, _inlined rules, aliases, '
         '[optional] with placeholders, !keep-all rules, filtered anonymous tokens, EBNF * and +), three lexers (basic, '
         'dynamic, dynamic_complete with overlapping terminals "a","aa",/a+/), inputs = all strings up to a length bound over '
@@ -28,7 +32,10 @@ RULE = ('random ambiguous grammars (<=4 non-terminals, <=3 alternatives of lengt
         'Coq evaluates to_tree_explicit on it and compares with lark\'s tree (nested _ambig flattened on both sides), checks '
         'the well-formedness hypothesis of the theorem on the exported forest, and CollapseAmbiguities against collapse; '
         'Python oracle: brute-force derivations of the compiled BNF shaped independently vs expansion of lark\'s tree as sets; '
-        'cyclic stream: termination + every tree is the shape of a derivation; ignore stream: grammars with one or several '
+        'cyclic stream: termination + every tree is the shape of a derivation, and the captured forest as a numbered '
+        '(cyclic) graph given to Forest/ExplicitGraph.graph_explicit, whose tree must equal lark\'s exactly (cycle retreat, '
+        'packed-node cache); cyclic-corpus stream (fixed): 18 cyclic grammars covering every shape of cycle the walk '
+        'distinguishes, same comparisons; ignore stream: grammars with one or several '
         '(also overlapping) %ignore terminals, half of them ambiguous at the root between differently shaped start '
         'alternatives (aliases, _rules, ?rules, filtered/kept tokens), inputs with leading/inner/trailing ignored text, '
         'oracle at character level with ignored text allowed before every token and after the last one; '
@@ -50,6 +57,8 @@ RULE = ('random ambiguous grammars (<=4 non-terminals, <=3 alternatives of lengt
         'non-trivial = distinct (grammar, lexer, input) whose explicit tree contains at least one _ambig')
 TRUSTED_BASE = ['hand model Forest/ExplicitToTree.v of ForestToParseTree(resolve_ambiguity=False) and the rule callback chain, '
                 'tied by structural comparison on forests captured inside Lark.parse',
+                'hand model Forest/ExplicitGraph.v of the explicit-mode walk on cyclic forests (on_cycle retreat, _successful_visits, '
+                'packed-node cache), tied by exact comparison of the returned tree on numbered forest graphs',
                 'forest export (unfolding of the shared SPPF into a tree; rule records read from Rule objects)',
                 'Python oracle (brute-force derivation enumeration + independent shaping) for the failing-input search and '
                 'for completeness of the parser->forest layer (A_complete_partial)']
@@ -65,6 +74,9 @@ ASSUMPTIONS = ['no rule or alias is named _ambig/_iambig (reserved tree labels)'
                'indices); under the dynamic lexers through the instrumented dynamic model (dyn-families)']
 
 IMPORTS = 'From LV Require Import Base.Prelude Forest.ExplicitToTree Forest.ExplicitCheck.'
+IMPORTS_G = ('From LV Require Import Base.Prelude Forest.ExplicitToTree Forest.ExplicitCheck Forest.ExplicitGraph '
+             'Forest.ExplicitGraphCheck.')
+MAX_GNODES = 300         # size bound of a numbered forest graph given to Forest/ExplicitGraph.v
 
 MAX_NODES = 400          # unfolded forest size bound for a Coq case
 MAX_TREE = 4000          # unfolded size bound of an explicit tree that is examined further
@@ -303,6 +315,34 @@ STACKED_CORPUS = [
 ]
 
 
+# fixed corpus of grammars with derivation cycles (independent of VERIF_SEED): the forest is a cyclic graph and
+# ForestToParseTree has to retreat from cycles; every shape of cycle the walk distinguishes is represented: a unit
+# self-loop, mutual unit recursion, a cycle through a nullable sibling (left child / right child on the path), a cycle
+# below an intermediate node, a cycle reached from two parents (the packed-node cache is filled under one path and
+# reused under another), cycles through inlined and ?rules
+CYCLIC_CORPUS = [
+    ('start: start | A\nA: "a"\n', ['a']),
+    ('start: x\nx: x | A | x x\nA: "a"\n', ['a', 'aa']),
+    ('start: b\nb: c | A\nc: b | A\nA: "a"\n', ['a']),
+    ('start: e start | A\ne:\nA: "a"\n', ['a']),
+    ('start: start e | A\ne:\nA: "a"\n', ['a']),
+    ('start: e start e | A\ne: | e e\nA: "a"\n', ['a']),
+    ('start: x x\nx: x | A | e\ne:\nA: "a"\n', ['a', 'aa', '']),
+    ('start: x y\nx: y | A\ny: x | A | e\ne:\nA: "a"\n', ['a', 'aa']),
+    ('start: _x\n_x: _x | A | _x _x\nA: "a"\n', ['a', 'aa']),
+    ('start: q\n?q: q | A | q q\nA: "a"\n', ['a', 'aa']),
+    ('start: x A\nx: x | e | x x\ne:\nA: "a"\n', ['a']),
+    ('start: p p\np: q | A\nq: p | r\nr: A | q\nA: "a"\n', ['aa']),
+    ('start: a a\na: b | A\nb: a | A A | b\nA: "a"\n', ['aa', 'aaa']),
+    ('start: x\nx: y y | A\ny: x | e\ne: | e\nA: "a"\n', ['a']),
+    ('start: x\nx: x e e | e x e | A\ne:\nA: "a"\n', ['a']),
+    ('start: l\nl: l l | i\ni: l | A\nA: "a"\n', ['a', 'aa']),
+    # the witnesses of C04_B_cyclic_cycle_free_exact_refuted (packed-node cache filled under one path, reused under another)
+    ('start: a | x\na: x | A\nx: y\ny: a | A\nA: "a"\n', ['a']),
+    ('start: x | a\na: x | A\nx: y\ny: a | A\nA: "a"\n', ['a']),
+]
+
+
 def gen_chain_grammar(rng, lexer):
     """random member of the same class: start uses an inlined _a, _a: _b x .., _b (and below it _c / ?q) ambiguous, the
     symbol after the inlined child makes the intermediate node of _a ambiguous as well"""
@@ -523,6 +563,58 @@ def export_forest(root):
         path.discard(id(n))
         return ('sym', label, fams)
     return node(root)
+
+
+def export_id_graph(root):
+    """the SPPF below root as a numbered graph: [('tok', type, value) | ('sym', label, [(rule, left|None, right|None)])],
+    a node's number is its position, root = 0; packed children in SymbolNode.children order (as the transformer visits
+    them).  None when too big."""
+    from lark.parsers.earley_forest import TokenNode
+    ids = {}
+    order = []
+
+    def num(n):
+        k = id(n)
+        if k not in ids:
+            ids[k] = len(order)
+            order.append(n)
+        return ids[k]
+    num(root)
+    nodes = []
+    i = 0
+    while i < len(order):
+        n = order[i]
+        i += 1
+        if len(order) > MAX_GNODES:
+            return None
+        if isinstance(n, TokenNode):
+            nodes.append(('tok', str(n.token.type), str(n.token)))
+            continue
+        label = ('I', n.s[0], n.s[1]) if n.is_intermediate else ('S', n.s.name)
+        fams = []
+        for p in n.children:
+            fams.append((p.rule, num(p.left) if p.left is not None else None, num(p.right) if p.right is not None else None))
+        nodes.append(('sym', label, fams))
+    return nodes
+
+
+def coq_graph(nodes, rt):
+    out = []
+    for nd in nodes:
+        if nd[0] == 'tok':
+            out.append('(GTok %s %s)' % (S(nd[1]), S(nd[2])))
+            continue
+        _, label, fams = nd
+        lb = '(LSym %s)' % S(label[1]) if label[0] == 'S' else '(LInter %s %s)' % (rt.ref(label[1]), N(label[2]))
+        fs = ['(mkGP %s %s %s)' % (rt.ref(r), 'None' if l is None else '(Some %d)' % l, 'None' if x is None else '(Some %d)' % x)
+              for r, l, x in fams]
+        out.append('(GSym %s %s)' % (lb, L(fs)))
+    return L(out)
+
+
+def coq_gcase(nodes, tree, rt, strict):
+    t = 'None' if tree is None or tree == ('none',) else '(Some %s)' % coq_tree(tree)
+    return rt.wrap('(%s, %s, 0, %s)' % (B(strict), coq_graph(nodes, rt), t))
 
 
 def forest_is_cyclic(root):
@@ -1335,7 +1427,8 @@ def count_expansions(t, cap=10 ** 6):
     return n
 
 
-def run_stream(ctx, stream, ngrammars, cyclic_wanted, maxlen, cases, meta, defs, acases=None, ignore=False, corpus=None):
+def run_stream(ctx, stream, ngrammars, cyclic_wanted, maxlen, cases, meta, defs, acases=None, ignore=False, corpus=None,
+               gcases=None):
     from lark.exceptions import GrammarError
     from lark import Tree
     rng = ctx.rng
@@ -1429,6 +1522,16 @@ def run_stream(ctx, stream, ngrammars, cyclic_wanted, maxlen, cases, meta, defs,
                     acases[2].append((g, lexer, text, opts, verdict))
             if obs['status'] != 'ok':
                 continue
+            if gcases is not None and tree_size(obs['tree']) <= 3 * MAX_NODES:
+                # the forest as a numbered (possibly cyclic) graph for Forest/ExplicitGraph.v: which packed nodes the walk
+                # drops on a cycle, the packed-node cache, and the tree built from what is kept
+                gnodes = export_id_graph(obs['root'])
+                if gnodes is not None:
+                    fc = forest_is_cyclic(obs['root'])
+                    hist(ctx, graph_model_forest=('cyclic' if fc else 'too big to unfold' if fc is None else 'acyclic'))
+                    gstrict = not has_shared_ambig(obs['lark_tree'])
+                    gcases[0].append(coq_gcase(gnodes, obs['tree'], RuleTable('r', opts['maybe_placeholders']), gstrict))
+                    gcases[1].append((g, lexer, text, opts, verdict))
             try:
                 forest = export_forest(obs['root'])
             except (TooBig, Cyclic):
@@ -1461,8 +1564,10 @@ def correspond(ctx):
     acases = ([], [], [])
     run_stream(ctx, 'stacked-corpus', 0, False, 0, cases, meta, defs, acases, corpus=STACKED_CORPUS)
     run_stream(ctx, 'overlap-corpus', 0, False, 0, cases, meta, defs, None, corpus=OVERLAP_CORPUS)
+    gcases = ([], [])
+    run_stream(ctx, 'cyclic-corpus', 0, True, 0, cases, meta, defs, acases, corpus=CYCLIC_CORPUS, gcases=gcases)
     run_stream(ctx, 'acyclic', ctx.scale(80, 1500) * k, False, 4, cases, meta, defs, acases)
-    run_stream(ctx, 'cyclic', ctx.scale(25, 300) * k, True, 3, cases, meta, defs, acases)
+    run_stream(ctx, 'cyclic', ctx.scale(25, 300) * k, True, 3, cases, meta, defs, acases, gcases=gcases)
     # %ignore: layer B and the derivation oracle; layer A (graph form, added-vs-forest) where the lexer is basic - the
     # basic lexer drops the ignored tokens, the parser works on the remaining token list; the dynamic lexers' layer A
     # is the dyn-families stream
@@ -1477,6 +1582,7 @@ def correspond(ctx):
                                     extra_defs='\n'.join(_STR_DEFS + defs))
     for e in errs:
         ctx.violation('correspondence:coq-eval', {'no_longer_checks': 'Coq evaluation of the model', 'error': e}, False, e[:300])
+    check_graph_model(ctx, gcases, defs)
     for i in bad:
         g, lexer, text, opts, verdict = meta[i]
         if verdict:
@@ -1485,6 +1591,25 @@ def correspond(ctx):
                       dict(witness(g, lexer, text, opts), no_longer_checks='model/implementation agreement on this case'),
                       False, 'model and implementation disagree on the explicit tree (or CollapseAmbiguities result, or the '
                              'forest is not of the shape assumed by the theorem); the derivation oracle holds on this case')
+
+
+def check_graph_model(ctx, gcases, defs):
+    """Coq: Forest/ExplicitGraph.graph_explicit (cycle retreat, packed-node cache, tree of the kept nodes) on the numbered
+    forest graph equals lark's explicit tree, and the graph has the local form the theorems assume (gwfb)"""
+    terms, gmeta = gcases
+    ctx.extra['graph_model_cases'] = len(terms)
+    bad, errs = ctx.coq_bad_indices('c04g', IMPORTS_G, 'gcheck_case', terms, chunk=100, extra_defs='\n'.join(_STR_DEFS + defs))
+    for e in errs:
+        ctx.violation('correspondence:coq-eval-G', {'no_longer_checks': 'Coq evaluation of gcheck_case', 'error': e}, False, e[:300])
+    for i in bad:
+        g, lexer, text, opts, verdict = gmeta[i]
+        if verdict:
+            continue
+        ctx.violation('correspondence:Forest/ExplicitGraph.graph_explicit vs ForestToParseTree on a forest graph',
+                      dict(witness(g, lexer, text, opts), no_longer_checks='cycle retreat / packed-node cache of the explicit-mode walk'),
+                      False, 'the model of the explicit-mode walk over the (cyclic) forest graph and lark disagree on the tree (which '
+                             'packed nodes are dropped on a cycle, what the cache returns, or the graph is not of the assumed local '
+                             'form); the soundness oracle holds on this case')
 
 
 def check_layer_a(ctx, acases):
